@@ -682,3 +682,39 @@ pub fn run_determinism(prog: &Vec<Vec<Step>>, hist: &[Act], repeats: usize) -> R
   }
   Ok(())
 }
+
+// ---- C15 for resources: two resource types with identical fields, hash and debug text, looked up directly after one another -------
+#[derive(Clone, Copy, PartialEq, Eq, Hash)] pub struct Res2(pub u8);
+impl Debug for Res2 { fn fmt(&self, f: &mut std::fmt::Formatter<'_>) -> std::fmt::Result { write!(f, "Res({})", self.0) } }
+impl MapKey for Res2 { type Value = u8; }
+#[derive(Clone, PartialEq, Eq, Hash, Debug)] pub struct TwinReader(pub u8);
+impl Task for TwinReader {
+  type Output = (Option<u8>, Option<u8>);
+  fn execute<C: Context>(&self, c: &mut C) -> Self::Output {
+    let a = c.read(&Res(self.0), MapEqualsChecker).unwrap().copied();
+    let b = c.read(&Res2(self.0), MapEqualsChecker).unwrap().copied();
+    (a, b)
+  }
+}
+pub fn twin_resources() -> Result<(), Fail> {
+  let mut pie: Pie<()> = Pie::default();
+  pie.resource_state_mut::<Res>().get_global_map_mut().insert(Res(1), 10);
+  pie.resource_state_mut::<Res2>().get_global_map_mut().insert(Res2(1), 20);
+  let first = pie.new_session().require(&TwinReader(1));
+  if first != (Some(10), Some(20)) { fail!("C15", "C15.bounded.resources_of_different_types_never_share_a_node", "a task reading Res(1) = 10 and its look-alike of another type = 20 got {:?}", first); }
+  // only the second resource changes: the task depends on it, so it must be re-executed -- top-down ...
+  pie.resource_state_mut::<Res2>().get_global_map_mut().insert(Res2(1), 21);
+  let second = pie.new_session().require(&TwinReader(1));
+  if second != (Some(10), Some(21)) { fail!("C15", "C15.bounded.resources_of_different_types_never_share_a_node", "after only the look-alike resource changed to 21 the task returned {:?} (its dependency on that resource was lost or merged)", second); }
+  // ... and bottom-up
+  pie.resource_state_mut::<Res2>().get_global_map_mut().insert(Res2(1), 22);
+  { let mut s = pie.new_session(); { let mut b = s.create_bottom_up_build(); b.schedule_tasks_affected_by(&Res2(1)); b.update_affected_tasks(); } let third = s.require(&TwinReader(1));
+    if third != (Some(10), Some(22)) { fail!("C15", "C15.bounded.resources_of_different_types_never_share_a_node", "after a bottom-up build for the look-alike resource the task returned {:?}", third); } }
+  // a writer of one twin is not a writer of the other
+  #[derive(Clone, PartialEq, Eq, Hash, Debug)] struct TwinWriter(u8);
+  impl Task for TwinWriter { type Output = (); fn execute<C: Context>(&self, c: &mut C) { c.write(&Res(self.0), MapEqualsChecker, |w| { w.insert(5); Ok(()) }).unwrap(); c.write(&Res2(self.0), MapEqualsChecker, |w| { w.insert(6); Ok(()) }).unwrap(); } }
+  let r = catch_unwind(AssertUnwindSafe(|| { let mut p2: Pie<()> = Pie::default(); p2.new_session().require(&TwinWriter(3)); let a = p2.resource_state_mut::<Res>().get_global_map().get(&Res(3)).copied(); let b = p2.resource_state_mut::<Res2>().get_global_map().get(&Res2(3)).copied(); (a, b) }));
+  match r { Ok((Some(5), Some(6))) => {}, Ok(o) => fail!("C15", "C15.bounded.resources_of_different_types_never_share_a_node", "one task wrote 5 and 6 to two look-alike resources of different types; they hold {:?}", o),
+            Err(e) => fail!("C15", "C15.bounded.resources_of_different_types_never_share_a_node", "one task writing two look-alike resources of different types aborted: {}", panic_msg(e)) }
+  Ok(())
+}
